@@ -83,10 +83,17 @@ def describe : Except Err (Res Sym Sym) → String
     s!"-> {if t.mom then "m" else "g"}{t.dim} {t.az.str} {(t.lon.map Lon.str).getD "-"} {(t.tmp.map Tmp.str).getD "-"} :: "
       ++ " | ".intercalate (v.c.map Sym.str)
 
-def parseStep (tok : String) : Option (Step Sym) :=
+def iopOf : String → Option IOp
+  | "add" => some .add | "sub" => some .sub | "mul" => some .mul | "truediv" => some .div | _ => none
+
+def parseStep (ty : VT) (tok : String) : Option (Step Sym) :=
   match tok.splitOn "/" with
-  | ["set", n, a] => (parseScalar a).map (Step.set n)
-  | ["iop", op, a] => (parseArg a).map (Step.iop op)
+  | ["set", n, a] => (parseScalar a).map (stepOfSet ty n)
+  | ["iop", op, a] =>
+    match iopOf op, parseArg a with
+    | some o, some (.v w) => some (.iopV o w)
+    | some o, some (.sc f) => some (.iopS o f)
+    | _, _ => none
   | _ => none
 
 def describeVec (v : Vec Sym) : String := describe (.ok (.vec v))
@@ -94,11 +101,14 @@ def describeVec (v : Vec Sym) : String := describe (.ok (.vec v))
 def answer (line : String) : String :=
   match (line.trimAscii.toString.splitOn " ").filter (· ≠ "") with
   | "H" :: self :: steps =>
-    match parseVec self, steps.mapM parseStep with
-    | some v, some sts =>
+    match parseVec self with
+    | none => "bad-op"
+    | some v =>
+    match steps.mapM (parseStep v.ty) with
+    | none => "bad-op"
+    | some sts =>
       " ;; ".intercalate ((run ev K A v sts).map fun (v', e) =>
         match e with | some e => "!! " ++ e.str ++ " " ++ describeVec v' | none => describeVec v')
-    | _, _ => "bad-op"
   | kind :: meth :: self :: rest =>
     match parseVec self, rest.mapM parseArg with
     | some v, some args =>
